@@ -547,10 +547,16 @@ func (doc *T) InternalizeRefs(ctx context.Context, refNameResolver func(*T, Comp
 	}
 
 	if components := doc.Components; components != nil {
-		for _, name := range componentNames(components.Schemas) {
-			schema := components.Schemas[name]
-			isExternal := doc.addSchemaToSpec(schema, refNameResolver, false)
-			if schema != nil {
+		// Schemas that are external references themselves go first: each schema is walked
+		// once, and one reached through such an alias from another root schema would
+		// otherwise be walked as if its own references were those of the root document.
+		for _, aliases := range []bool{true, false} {
+			for _, name := range componentNames(components.Schemas) {
+				schema := components.Schemas[name]
+				if schema == nil || isExternalRef(schema.Ref, false) != aliases {
+					continue
+				}
+				isExternal := doc.addSchemaToSpec(schema, refNameResolver, false)
 				schema.Ref = "" // always dereference the top level
 				doc.derefSchema(schema.Value, refNameResolver, isExternal)
 			}
